@@ -441,13 +441,16 @@ def _hostile_search(ctx, outdir, seed, out):
            "stall_candidates": len(child.get("stall_candidates") or []), "stalls_confirmed_by_replay": len(rep.get("stalls_confirmed") or []),
            "stall_candidates_not_reproduced_discarded": rep.get("stall_candidates_not_reproduced_discarded")}
     res.update({k: child.get(k) for k in ("scenarios", "scenarios_by_pool", "admin_ops", "admin_ops_accepted", "queries", "concurrent_phase_operations",
-                                          "queries_upstream_exchange_failed_not_judged")})
+                                          "queries_upstream_exchange_failed_not_judged",
+                                          # round 6: requests shaped after the ClientID extraction's ways (pool clientid)
+                                          "shaped_request_outcomes")})
     _child_common(ctx, rep, child, seed, "hostile", "with hostile admin data")
     for i, cs in enumerate(rep.get("stalls_confirmed") or []):
         spin = _first_repo_fn(cs.get("goroutines_in_replay") or cs.get("goroutines") or "")
         jr = cs.get("admin_journal") or []
-        ctx.fail("property-failure", "stall, reproduced by a sequential replay on a fresh server: %s has no result after the deadline (scenario %s); admin requests before it: %s"
-                 % (cs.get("stalled_in_replay") or cs.get("operation"), cs.get("scenario"), " ; ".join(jr[-4:]) or "none"),
+        before = "requests before it" if (cs.get("scenario") or "").startswith("clientid/") else "admin requests before it"
+        ctx.fail("property-failure", "stall, reproduced by a sequential replay on a fresh server: %s has no result after the deadline (scenario %s); %s: %s"
+                 % (cs.get("stalled_in_replay") or cs.get("operation"), cs.get("scenario"), before, " ; ".join(jr[-4:]) or "none"),
                  finding_key="stall:" + (cs.get("scenario") or "?").split("/")[0], failing_input_found=True,
                  detail={"case": {"id": "hostile-stall-%d-%d" % (seed, i), "seed": seed,
                                   "desc": {"kind": "stall (request path does not terminate for this configuration; the goroutine keeps its locks)",
